@@ -1223,6 +1223,12 @@ def hostile_case(case, r, idx):
         d.update({"id": sid, "fin": fin, "end": end})
         fb = bytes([0x0f]) + _var(sid) + _var(fin - 1) + _var(1) + b"F" \
             + bytes([0x0e]) + _var(sid) + _var(end - 1) + _var(1) + b"M"
+    elif k == "morethenfin":
+        fin = 10
+        end = fin + rel
+        d.update({"id": sid, "fin": fin, "end": end})
+        fb = bytes([0x0e]) + _var(sid) + _var(end - 1) + _var(1) + b"M" \
+            + bytes([0x0f]) + _var(sid) + _var(fin - 1) + _var(1) + b"F"
     elif k == "stop":
         d["id"] = sid
         fb = bytes([0x05]) + _var(sid) + _var(7)
@@ -1318,7 +1324,7 @@ def hostile_case(case, r, idx):
               {"do": "run", "us": 300000}]
     # the victim application tries to read whatever the hostile frame may have delivered
     own_uni = (sid // 2) % 2 == 1 and (sid % 2 == (0 if v == "c" else 1))
-    if k in ("stream", "finthenmore") and not own_uni:
+    if k in ("stream", "finthenmore", "morethenfin") and not own_uni:
         steps.append({"do": "op", "n": victim_n, "c": 0, "op": {"op": "accept", "dir": 1 if (sid // 2) % 2 else 0}})
         steps.append({"do": "op", "n": victim_n, "c": 0, "op": {"op": "read", "id": sid, "ordered": False}})
     steps.append({"do": "run_until", "what": "apps", "max_us": 5000000})
